@@ -274,6 +274,22 @@ class Evaluator:
                 return v[k]
             except (KeyError, IndexError):
                 raise Raised("KeyError/IndexError")
+        if isinstance(e, (ast.GeneratorExp, ast.ListComp)) and len(e.generators) == 1 and not e.generators[0].is_async:
+            g = e.generators[0]
+            it = self.expr(m, g.iter, env)
+            if isinstance(it, dict):
+                it = list(it.keys())
+            if isinstance(it, (set, frozenset)):
+                it = sorted(it)
+            if not isinstance(it, (list, tuple, str)):
+                raise AnalysisError(f"absinterp: comprehension over non-table value: {norm(g.iter)}")
+            out = []
+            inner = dict(env)
+            for item in it:
+                self.bind(g.target, item, inner)
+                if all(self.truth(self.expr(m, c, inner)) for c in g.ifs):
+                    out.append(self.expr(m, e.elt, inner))
+            return out
         if isinstance(e, ast.Tuple):
             return tuple(self.expr(m, x, env) for x in e.elts)
         if isinstance(e, ast.Call):
